@@ -275,7 +275,12 @@ func (r *run) reader(c *Conn, cl *Client) {
 			}
 			c.changed.Signal(s)
 		}
-		if err != nil || c.rdS.Err != nil {
+		if c.rdS.Err != nil && err == nil {
+			// the broker sent something unparsable (reported by the framing
+			// oracle): keep draining so that the broker is not held up
+			continue
+		}
+		if err != nil {
 			c.Dead = true
 			c.DeadStamp = s.Stamp()
 			c.DeadVT = int64(s.Now())
